@@ -355,11 +355,62 @@ fn main() {
         pipeline!(g, ml_dsa_87, with_rare(87), msg);
         g.emit();
     }
+    // ---- (i-b) NORMAL-mode signing (rejection sampling active), secret-only variation: keys that differ only in s1 and
+    // whose reference rejection sequences agree have an identical public transcript (witnesses/ct_paired_s1.json)
+    paired_s1_groups(thorough);
     #[cfg(feature = "kernels")]
     kernel_groups(thorough, &inputs);
     #[cfg(not(feature = "kernels"))]
     println!("{{\"no_kernels\":true}}");
     println!("{{\"done\":true}}");
+}
+
+fn unhex32(s: &str) -> [u8; 32] { core::array::from_fn(|i| u8::from_str_radix(&s[2 * i..2 * i + 2], 16).unwrap()) }
+
+macro_rules! paired_set {
+    ($ns:ident, $id:expr, $eta_bits:expr, $l:expr, $v:expr, $thorough:expr) => {{
+        use fips204::traits::{KeyGen, SerDes, Signer};
+        let base_seed = unhex32($v["base_seed"].as_str().unwrap());
+        let s1_seeds: Vec<[u8; 32]> = $v["s1_seeds"].as_array().unwrap().iter().map(|x| unhex32(x.as_str().unwrap())).collect();
+        let base = fips204::$ns::KG::keygen_from_seed(&base_seed).1.into_bytes();
+        let s1_len = 32 * $eta_bits * $l;
+        // the key object lives in ONE heap slot for all inputs, so that its address does not vary between runs
+        let mut slot: Box<Option<fips204::$ns::PrivateKey>> = Box::new(None);
+        let groups: Vec<&serde_json::Value> = $v["groups"].as_array().unwrap().iter().filter(|g| g["set"].as_u64() == Some($id)).collect();
+        for (gi, g) in groups.iter().enumerate() {
+            if !$thorough && gi >= 2 {
+                break;
+            }
+            let msg: &'static [u8] = Box::leak(g["msg"].as_str().unwrap().as_bytes().to_vec().into_boxed_slice());
+            let mut grp = Group::new(&format!("normal-mode-sign:{}:s1-only-variation:rejects={}", stringify!($ns), g["rejects"].as_str().unwrap()));
+            for j in g["s1_seed_indices"].as_array().unwrap() {
+                let j = j.as_u64().unwrap() as usize;
+                let other = fips204::$ns::KG::keygen_from_seed(&s1_seeds[j]).1.into_bytes();
+                let mut skb = base;
+                skb[128..128 + s1_len].copy_from_slice(&other[128..128 + s1_len]);
+                *slot = Some(fips204::$ns::PrivateKey::try_from_bytes(skb).expect("spliced key is in range"));
+                let sk: &fips204::$ns::PrivateKey = slot.as_ref().as_ref().unwrap();
+                let f = || {
+                    let mut rng = Replay { data: [0u8; 64], pos: 0 };
+                    sk.try_sign_with_rng(&mut rng, msg, &[]).is_ok()
+                };
+                run_input!(grp, || format!("s1-seed{j}"), f);
+            }
+            grp.emit();
+        }
+    }};
+}
+
+fn paired_s1_groups(thorough: bool) {
+    let root = std::env::var("VERIF_ROOT").unwrap_or_else(|_| "/verif".to_string());
+    let Ok(text) = std::fs::read_to_string(format!("{root}/witnesses/ct_paired_s1.json")) else {
+        println!("{{\"no_paired_witnesses\":true}}");
+        return;
+    };
+    let v: serde_json::Value = serde_json::from_str(&text).expect("ct_paired_s1.json");
+    paired_set!(ml_dsa_44, 44, 3, 4, v, thorough);
+    paired_set!(ml_dsa_65, 65, 4, 5, v, thorough);
+    paired_set!(ml_dsa_87, 87, 3, 7, v, thorough);
 }
 
 #[cfg(feature = "kernels")]
